@@ -146,6 +146,21 @@ theorem checkRanking_ok {c : Case} {fl : Flags} {x : Ctx} (hx : FlagsAgree c fl 
     simp only [hb, hrk, hlr, List.isEmpty_cons, Bool.false_and, Bool.not_true, Bool.false_eq_true, if_false,
       bne_self_eq_false]
 
+theorem checkShownRanked_ok {c : Case} {fl : Flags} {x : Ctx} (hx : FlagsAgree c fl x) (net : Net)
+    (es : List Entry) (hs : Sorted (cmpFor fl net.t2) es) (hok : ∀ e ∈ es, EntryOk e)
+    (hr : ∀ e ∈ es, EntryRef c e) :
+    checkShownRanked x net (es.map fun e => (e.src.id, e.attr.id)) = none := by
+  have hrk := ranked_of_sorted fl net.t2 hs hok
+  have hm := mapM_key hx net.t2 es hr
+  unfold checkShownRanked
+  rw [hm]
+  cases es with
+  | nil => simp [ranked]
+  | cons a l =>
+    have hb := head_not_beaten fl net.t2 hs hok
+    simp only [List.map_cons] at hb hrk ⊢
+    simp only [hb, hrk, Bool.not_true, Bool.false_eq_true, if_false]
+
 /-! ## The spec's bookkeeping of next-hop reachability tracks the model's flags -/
 
 def NhRel (t : Table) (m : NhMap) : Prop :=
@@ -480,7 +495,7 @@ theorem filter_map_dentry (fl : Flags) (q' : DEntry → Bool) (q : Entry → Boo
 theorem nonEmptyList_optList {β} (l : List β) : optList (nonEmptyList l) = l := by
   cases l <;> rfl
 
-theorem clauseShown_ok {t : Table} {op : Op} (r : Res) (hinv : Inv c g t) {m : NhMap}
+theorem clauseShown_ok {t : Table} {op : Op} (r : Res) (hinv : Inv c g t) (ha : AttrRefInv c t) {m : NhMap}
     (hnh : NhRel t m) (f : Fam) {d : Net × List DEntry} (hd : d ∈ (famObs c t f).dests) :
     clauseShown { c := c, stale := (stepObs c op (t, r)).stale, llgr := (stepObs c op (t, r)).llgr } m
       (t.rib f).deferring (famObs c t f) d = none := by
@@ -509,20 +524,25 @@ theorem clauseShown_ok {t : Table} {op : Op} (r : Res) (hinv : Inv c g t) {m : N
   unfold clauseShown
   show (if (optList (lookupNet d.1 (famObs c t f).nofilt) != d.2.filter (fun e => !e.filtered)) = true
       then some "api-list-is-not-the-unfiltered-paths"
-    else if ((t.rib f).deferring || eligibleOf _ m f d.1 (optList (lookupNet d.1 (famObs c t f).nofilt)) ==
+    else if (t.rib f).deferring = true then
+      checkShownRanked _ d.1 (eligibleOf _ m f d.1 (optList (lookupNet d.1 (famObs c t f).nofilt)))
+    else if (eligibleOf _ m f d.1 (optList (lookupNet d.1 (famObs c t f).nofilt)) ==
       (match (famObs c t f).loc.find? (fun l => l.net = d.1) with
         | some l => l.paths.map fun p => (p.src, p.attr)
         | none => ([] : List (Nat × Nat)))) = true then none else some "api-list-order-differs-from-ranking") = none
-  cases hdf : (t.rib f).deferring with
-  | true => rw [hshown, hfilt]; simp
-  | false =>
-  rw [hshown, hrank hdf, hfilt, eligibleOf_obs_filter hinv hnh _ rfl, elig_eq_filter, List.filter_filter]
-  have : (t.entries f d.1).filter (fun e => e.eligible && !e.filtered) = (t.entries f d.1).filter Entry.eligible := by
+  have hEl : (t.entries f d.1).filter (fun e => e.eligible && !e.filtered) = (t.entries f d.1).filter Entry.eligible := by
     apply List.filter_congr
     intro e _
     simp only [Entry.eligible]
     cases e.filtered <;> cases e.nhInv <;> rfl
-  rw [this]
+  cases hdf : (t.rib f).deferring with
+  | true =>
+    rw [hshown, hfilt, eligibleOf_obs_filter hinv hnh _ rfl, List.filter_filter, hEl, ← elig_eq_filter]
+    simp only [bne_self_eq_false, Bool.false_eq_true, if_false, if_true]
+    exact checkShownRanked_ok (flagsAgree_stepObs c op (t, r)) d.1 (t.elig f d.1) (elig_sorted hinv _ _)
+      (fun e he => (elig_ok hinv ha _ _ e he).1) (fun e he => (elig_ok hinv ha _ _ e he).2)
+  | false =>
+  rw [hshown, hrank hdf, hfilt, eligibleOf_obs_filter hinv hnh _ rfl, elig_eq_filter, List.filter_filter, hEl]
   simp
 
 theorem isRsClient_ref {e : Entry} (h : c.srcs[e.src.id]? = some e.src) :
@@ -649,7 +669,7 @@ theorem checkFam_ok {t : Table} {op : Op} (r : Res) (hinv : Inv c g t) (ha : Att
   unfold checkFam
   rw [orElse_none _ _ (firstSome_none fun d hd => clauseDest_ok r hinv ha hnh f hd),
     orElse_none _ _ (firstSome_none fun l hl => clauseLoc_ok hinv f hl),
-    orElse_none _ _ (firstSome_none fun d hd => clauseShown_ok r hinv hnh f hd),
+    orElse_none _ _ (firstSome_none fun d hd => clauseShown_ok r hinv ha hnh f hd),
     orElse_none _ _ (firstSome_none fun v hv => firstSome_none fun d hd => clauseRsLocal_ok r hinv ha hnh f hv hd)]
   exact firstSome_none fun v hv => firstSome_none fun d hd => clauseAdjIn_ok r hinv f hv hd
 
